@@ -45,7 +45,7 @@ func genSeqMulti(b *builder, c *corpus, nSites int) {
 		kinds = append([]string{proto.OpDXIL}, kinds...)
 	}
 	for i := 0; i < n && i < len(kinds); i++ {
-		if b.r.chance(0.12) {
+		if b.r.chance(0.25) {
 			b.add(t, proto.Op{Kind: proto.OpValidate, Mod: m})
 		}
 		b.add(t, b.backendOp(kinds[i], m))
